@@ -223,6 +223,7 @@ def replayEngine (d : Def) (now0 : Int) (cs : List Nat) (obs : List EObs) : Opti
       match o.op with
       | "set" => s := apply d s (.set o.arg)
       | "add" => s := apply d s (.advance o.arg)
+      | "arrive" => pure ()      -- the token held in front of the catch event is released: no clock change
       | _ => return some s!"op {n}: unknown operation {o.op}"
     s := settleWith d cs 16 s
     if !blocked d s then return some s!"op {n}: model not quiescent after 16 steps"
